@@ -130,6 +130,54 @@ func c07(c *Ctx) {
 		}
 		c.Check(okMM, "R1", "aggregate|(*histValues).measure|new series: min, max = value, value", at(ax.M, fn.Pos()), "extrema start at the first value", "a new series starts with zero-valued extrema: min of positive data reports 0")
 	}
+	// the lower-bound search needs sorted bounds: the constructor sorts its own copy (validation of "strictly increasing" happens
+	// only on some of the ways a Stream reaches the aggregator — a hand-written View function is not validated)
+	if fn := c.Fn(ax, "R1", "newHistValues"); fn != nil {
+		fBounds := lookupField(ax.Pkg, "histValues", "bounds")
+		g := ax.FG(fn)
+		// the value stored as bounds, and whether it passed a sort between its definition and the store
+		var stored types.Object
+		var storedExpr ast.Expr
+		inspectNoLit(fn.Body(), func(n ast.Node) bool {
+			switch x := n.(type) {
+			case *ast.KeyValueExpr:
+				if id, ok := x.Key.(*ast.Ident); ok && fBounds != nil && info.Uses[id] == types.Object(fBounds) {
+					storedExpr = x.Value
+					stored = objOf(info, x.Value)
+				}
+			case *ast.AssignStmt:
+				if r := assignRHS(x, func(e ast.Expr) bool { return isField(info, e, fBounds) }); r != nil {
+					storedExpr = r
+					stored = objOf(info, r)
+				}
+			}
+			return true
+		})
+		sorted := false
+		if stored != nil {
+			inspectNoLit(fn.Body(), func(n ast.Node) bool {
+				if call, ok := n.(*ast.CallExpr); ok && len(call.Args) >= 1 && sameVar(info, call.Args[0], stored) {
+					if isCallTo(info, call, "slices.Sort") || isCallTo(info, call, "sort.Float64s") || isCallTo(info, call, "slices.SortFunc") || isCallTo(info, call, "sort.Slice") {
+						// on every path from entry to the exit
+						nd := g.NodeOf(call)
+						if nd != nil {
+							seen, _ := g.ReachFromEntry(func(y *GNode) bool { return y == nd }, nil)
+							if !seen[g.Exit] {
+								sorted = true
+							}
+						}
+					}
+				}
+				return true
+			})
+		}
+		what := "nothing"
+		if storedExpr != nil {
+			what = exprStr(storedExpr)
+		}
+		c.Check(sorted, "R1", "aggregate|newHistValues|the bounds the search runs over are sorted by the constructor", at(ax.M, fn.Pos()), "own copy, sorted on every path",
+			"histValues.bounds is "+what+" without a sort: boundaries given in another order (a View function's Stream is not validated) make the lower-bound search count values in the wrong buckets")
+	}
 	if fn := c.Fn(ax, "R1", "(*buckets).bin"); fn != nil {
 		g := ax.FG(fn)
 		fMin, fMax := lookupField(ax.Pkg, "buckets", "min"), lookupField(ax.Pkg, "buckets", "max")
